@@ -47,6 +47,7 @@ func newBuildCache(f string) (*buildCache, error) {
 		expire: time.Hour * 24 * 7,
 		tables: tables,
 		cache:  cache,
+		clock:  verifCacheClock(),
 	}, nil
 }
 
